@@ -140,10 +140,27 @@ def run(ctx: Ctx):
     col.ob("G2", "S3", f"{rel}::ctm::field-order(writer==reader)", ok,
            f"write_ctm emits fields {written}; read_ctm unpacks {read}" + (f": `{contra[1]}` is written in slot {contra[0]} "
            f"but read from slot {contra[2]}" if contra else ""), rel, wr.line, sample=dict(written=written, read=read))
+    # the written line lists the five fields in the order of the stored tuple: either "{} {} {} {} {}".format(*segment), or an
+    # f-string / format over the names the loop unpacks from the tuple, in unpacking order
     fmt = [c for c in own_calls(wr.node) if isinstance(c.func, ast.Attribute) and c.func.attr == "format"
-           and isinstance(c.func.value, ast.Constant) and c.func.value.value.count("{}") == 5]
-    col.ob("G2", "S3", f"{rel}::write_ctm::five-fields-in-tuple-order", len(fmt) == 1 and len(fmt[0].args) == 1
-           and isinstance(fmt[0].args[0], ast.Starred), "the ctm line is not formatted from the 5-tuple in order", rel, wr.line)
+           and isinstance(c.func.value, ast.Constant) and isinstance(c.func.value.value, str) and c.func.value.value.count("{}") == 5]
+    ok5 = len(fmt) == 1 and len(fmt[0].args) == 1 and isinstance(fmt[0].args[0], ast.Starred)
+    if not ok5:
+        fields = None
+        for c in fmt:
+            if len(c.args) == 5 and all(isinstance(a, ast.Name) for a in c.args):
+                fields = [a.id for a in c.args]
+        for n in own_nodes(wr.node):
+            if isinstance(n, ast.JoinedStr):
+                fv = [v.value for v in n.values if isinstance(v, ast.FormattedValue)]
+                if len(fv) == 5 and all(isinstance(a, ast.Name) for a in fv):
+                    fields = [a.id for a in fv]
+        if fields is not None:
+            for n in own_nodes(wr.node):
+                if isinstance(n, ast.For) and isinstance(n.target, ast.Tuple) and [u(t) for t in n.target.elts] == fields:
+                    ok5 = True
+    col.ob("G2", "S3", f"{rel}::write_ctm::five-fields-in-tuple-order", ok5,
+           "the ctm line is not formatted from the 5-tuple in order", rel, wr.line)
     # duration <-> end are inverse: writer duration = end - start; reader end = start + float(dur)
     wdur = [n for n in own_nodes(wr.node) if isinstance(n, ast.Assign) and u(n.targets[0]) == written[3]]
     # writer: duration = end - start, with (token, start, end) unpacked from the transcript triple
@@ -169,7 +186,10 @@ def run(ctx: Ctx):
            "writer must map utt_id -> (wfn, chan) and reader (wfn, chan) -> utt_id", rel, rdc.line)
     # mandated ordering: segments sorted before writing; reader sorts tokens by start
     oks = any(isinstance(n, ast.Assign) and call_name(n.value) == "sorted" and u(n.value.args[0]) == u(n.targets[0])
-              for n in own_nodes(wr.node) if isinstance(n, ast.Assign) and isinstance(n.value, ast.Call))
+              for n in own_nodes(wr.node) if isinstance(n, ast.Assign) and isinstance(n.value, ast.Call)) or any(
+        isinstance(c.func, ast.Attribute) and c.func.attr == "sort" and not c.args and not c.keywords
+        and any(isinstance(l, ast.For) and u(l.iter) == u(c.func.value) and l.lineno > c.lineno for l in own_nodes(wr.node))
+        for c in own_calls(wr.node))
     col.ob("G13", "S3", f"{rel}::write_ctm::sorted-segments", oks, "ctm segments are not sorted before writing", rel, wr.line)
 
     # ---- S4 seconds <-> frames unit kinds ------------------------------------------------------------------------
@@ -184,16 +204,21 @@ def run(ctx: Ctx):
                 continue
             # a conversion site: an arithmetic assignment mentioning the frame shift (an API-level parameter); every
             # other quantity in it carries the source unit
-            if not isinstance(n.value, ast.BinOp) or "frame_shift_ms" not in u(n.value):
+            conv = n.value
+            if isinstance(conv, ast.Call) and call_name(conv) == "max" and len(conv.args) == 2:
+                # end = max(<conversion>, start + 1): the conversion is the operand that mentions the frame shift
+                cands = [a for a in conv.args if isinstance(a, ast.BinOp) and "frame_shift_ms" in u(a)]
+                conv = cands[0] if len(cands) == 1 else conv
+            if not isinstance(conv, ast.BinOp) or "frame_shift_ms" not in u(conv):
                 continue
             if not all(isinstance(t, ast.Name) for t in n.targets):
                 continue
             names = [t.id for t in n.targets]
             n_units += 1
-            env = {x.id: src for x in ast.walk(n.value) if isinstance(x, ast.Name) and x.id != "frame_shift_ms"}
+            env = {x.id: src for x in ast.walk(conv) if isinstance(x, ast.Name) and x.id != "frame_shift_ms"}
             env["frame_shift_ms"] = FS
             try:
-                got = unit_of(n.value, env)
+                got = unit_of(conv, env)
                 ok = got == dst
                 msg = f"`{u(n)}` has unit {got}, expected {dst}"
             except UnitError as e:
@@ -207,10 +232,13 @@ def run(ctx: Ctx):
     for n in own_nodes(t2t.node):
         if isinstance(n, ast.Assign) and isinstance(n.targets[0], ast.Name) and isinstance(n.value, ast.Call) \
                 and call_name(n.value) == "max" and len(n.value.args) == 2:
-            a0, a1 = n.value.args
-            if u(a0) == n.targets[0].id and isinstance(a1, ast.BinOp) and isinstance(a1.op, ast.Add) and u(a1.right) == "1" \
-                    and isinstance(a1.left, ast.Name) and a1.left.id != n.targets[0].id:
-                okmax = True
+            # end = max(<end in frames>, start + 1): either the variable itself (assigned just before) or its conversion
+            for a0, a1 in (n.value.args, n.value.args[::-1]):
+                if isinstance(a1, ast.BinOp) and isinstance(a1.op, ast.Add) and "1" in (u(a1.right), u(a1.left)) \
+                        and any(isinstance(x, ast.Name) and x.id != n.targets[0].id for x in (a1.left, a1.right)) \
+                        and (u(a0) == n.targets[0].id or (n.targets[0].id in {x.id for x in ast.walk(a0) if isinstance(x, ast.Name)}
+                                                          and "frame_shift_ms" in u(a0))):
+                    okmax = True
     col.ob("G12", "S4", f"{rel}::transcript_to_token::end>=start+1", okmax,
            "a non-empty segment may collapse to zero frames (end = max(end, start + 1) missing)", rel, t2t.line)
 
@@ -333,13 +361,18 @@ def _numeric_sort_keys(ctx: Ctx):
     numeric one, so the sort must convert first (key=... float(...)) or sort the converted values."""
     col = ctx.col
     n_sites = 0
+    from sa.inline import Inliner
     for f in ctx.owned():
         rel = f.module.relname
+        inl = None
         for comp in own_nodes(f.node):
             if not isinstance(comp, (ast.ListComp, ast.GeneratorExp)):
                 continue
             for g in comp.generators:
                 it = g.iter
+                if isinstance(it, ast.Name):
+                    inl = inl or Inliner(f.node)
+                    it = inl.expand(it)  # `entries = sorted(...)` shared by several comprehensions
                 if not (isinstance(it, ast.Call) and call_name(it) == "sorted" and it.args and isinstance(g.target, ast.Name)):
                     continue
                 tv = g.target.id
